@@ -3,13 +3,628 @@ From Coq Require Import List Bool Arith ZArith Lia.
 Import ListNotations.
 From PV Require Import Model.TriggerDef Model.Trigger.
 
+(* ------------------------------------------------------------------ small facts *)
+Lemma inb_true : forall v l, inb v l = true <-> In v l.
+Proof. intros v l. unfold inb. destruct (in_dec vc_eq_dec v l); split; intros; auto; discriminate. Qed.
+
+Lemma inb_false : forall v l, inb v l = false <-> ~ In v l.
+Proof. intros v l. unfold inb. destruct (in_dec vc_eq_dec v l); split; intros; auto; try discriminate. contradiction. Qed.
+
+Lemma runid_single_neq : forall i v w, v <> w -> runid_eqb (i, [v]) (i, [w]) = false.
+Proof.
+  intros i v w Hn. unfold runid_eqb, incl_b. cbn [fst snd forallb].
+  assert (Hf : inb v [w] = false).
+  { apply inb_false. intros [H|[]]. apply Hn. symmetry. exact H. }
+  rewrite Hf. rewrite andb_false_r. reflexivity.
+Qed.
+
+Lemma runid_tid_neq : forall i j a b, i <> j -> runid_eqb (i, a) (j, b) = false.
+Proof.
+  intros i j a b Hn. unfold runid_eqb. cbn [fst snd].
+  apply Nat.eqb_neq in Hn. rewrite Hn. reflexivity.
+Qed.
+
 Lemma record_idempotent_mem : forall v s, record_vc false v (record_vc false v s) = record_vc false v s.
 Proof.
   intros v s. unfold record_vc; cbn [pending claims launched now].
   destruct (inb v (pending s)) eqn:E.
   - rewrite E. reflexivity.
   - assert (H : inb v (pending s ++ [v]) = true).
-    { unfold inb. destruct (in_dec vc_eq_dec v (pending s ++ [v])) as [_|n]; [reflexivity|].
-      exfalso. apply n. apply in_or_app. right. left. reflexivity. }
+    { apply inb_true. apply in_or_app. right. left. reflexivity. }
     rewrite H. reflexivity.
 Qed.
+
+Lemma record_same_keys : forall e v s w, In w (pending (record_vc e v s)) <-> (w = v \/ In w (pending s)).
+Proof.
+  intros e v s w. unfold record_vc; cbn [pending].
+  destruct (inb v (pending s)) eqn:E.
+  - apply inb_true in E. destruct e.
+    + split.
+      * intro H. apply in_app_or in H. destruct H as [H|[H|[]]].
+        -- right. apply in_remove in H. apply H.
+        -- left. symmetry. exact H.
+      * intros [H|H].
+        -- subst. apply in_or_app. right. left. reflexivity.
+        -- destruct (vc_eq_dec w v) as [->|Hn].
+           ++ apply in_or_app. right. left. reflexivity.
+           ++ apply in_or_app. left. apply in_in_remove; assumption.
+    + split; [intro H; right; exact H|]. intros [H|H]; [subst; exact E|exact H].
+  - split.
+    + intro H. apply in_app_or in H. destruct H as [H|[H|[]]]; [right; exact H|left; symmetry; exact H].
+    + intros [H|H]; apply in_or_app; [right; left; symmetry; exact H|left; exact H].
+Qed.
+
+(* ------------------------------------------------------------------ one trigger, its plans *)
+Section Loop.
+Variable F : facts.
+
+Definition fresh (t : tdef) (s : state) (ps : list (list vc * list vc)) : Prop :=
+  forall p, In p ps -> live (claims s) (t_id t, fst p) (now s) = false.
+
+Fixpoint distinct_runs (t : tdef) (ps : list (list vc * list vc)) : Prop :=
+  match ps with
+  | [] => True
+  | p :: r => (forall q, In q r -> runid_eqb (t_id t, fst p) (t_id t, fst q) = false) /\ distinct_runs t r
+  end.
+
+Lemma fold_plans_fresh : forall t ps s,
+  fresh t s ps -> distinct_runs t ps ->
+  launched (fold_left (do_plan F t) ps s) = launched s ++ map (mk_launch t) ps
+  /\ pending (fold_left (do_plan F t) ps s) = pending s
+  /\ now (fold_left (do_plan F t) ps s) = now s.
+Proof.
+  intros t ps. induction ps as [|p r IH]; intros s Hf Hd; cbn [fold_left map].
+  - rewrite app_nil_r. auto.
+  - destruct Hd as [Hp Hr].
+    assert (Hlive : live (claims s) (t_id t, fst p) (now s) = false) by (apply Hf; left; reflexivity).
+    set (s1 := {| pending := pending s;
+                  claims := ((t_id t, fst p), (now s + f_claim_expiry_s F)%Z) :: claims s;
+                  launched := launched s ++ [mk_launch t p]; now := now s |}).
+    assert (Hdo : do_plan F t s p = s1).
+    { unfold do_plan. rewrite Hlive, andb_false_r. reflexivity. }
+    rewrite Hdo.
+    assert (Hf1 : fresh t s1 r).
+    { intros q Hq. unfold s1; cbn [claims now]. unfold live; cbn [existsb fst snd].
+      rewrite (Hp q Hq). cbn [andb orb]. apply Hf. right. exact Hq. }
+    destruct (IH s1 Hf1 Hr) as [Hl [Hpd Hn]].
+    split; [|split].
+    + rewrite Hl. unfold s1; cbn [launched]. rewrite <- app_assoc. reflexivity.
+    + rewrite Hpd. reflexivity.
+    + rewrite Hn. reflexivity.
+Qed.
+
+Lemma distinct_runs_singletons : forall t (g : vc -> list vc) ctx,
+  NoDup ctx -> distinct_runs t (map (fun v => ([v], g v)) ctx).
+Proof.
+  intros t g ctx Hnd. induction Hnd as [|v l Hin Hnd IH]; cbn [map distinct_runs]; [exact I|].
+  split; [|exact IH].
+  intros q Hq. apply in_map_iff in Hq. destruct Hq as [w [<- Hw]]. cbn [fst].
+  apply runid_single_neq. intro He. subst. contradiction.
+Qed.
+
+Lemma ctx_of_nodup : forall t snap, NoDup snap -> NoDup (ctx_of t snap).
+Proof. intros. unfold ctx_of. apply NoDup_filter. assumption. Qed.
+
+Lemma ctx_of_in : forall t snap v, In v (ctx_of t snap) <-> In v snap /\ depends t v = true.
+Proof. intros. unfold ctx_of. apply filter_In. Qed.
+
+Lemma has_cond_in : forall ctx c, has_cond ctx c = true <-> exists v, In v ctx /\ fst v = c.
+Proof.
+  intros ctx c. unfold has_cond. rewrite existsb_exists. split.
+  - intros [v [Hin He]]. apply Nat.eqb_eq in He. eauto.
+  - intros [v [Hin He]]. exists v. split; [exact Hin|]. apply Nat.eqb_eq. exact He.
+Qed.
+
+Definition per_occurrence_trigger (t : tdef) : Prop :=
+  t_logic t = LOr \/ (t_logic t = LAnd /\ single_cond t = true /\ f_per_occurrence F = true).
+
+(* a per-occurrence trigger with a relevant occurrence pending is satisfied *)
+Lemma per_occurrence_should_trigger : forall t snap v,
+  t_logic t = LOr \/ single_cond t = true ->
+  In v (ctx_of t snap) -> should_trigger t (ctx_of t snap) = true.
+Proof.
+  intros t snap v Hk Hv.
+  pose proof (proj1 (ctx_of_in t snap v) Hv) as [_ Hdep].
+  unfold depends in Hdep. apply existsb_exists in Hdep. destruct Hdep as [c [Hc He]].
+  apply Nat.eqb_eq in He.
+  assert (Hhas : has_cond (ctx_of t snap) c = true).
+  { apply has_cond_in. exists v. split; [exact Hv|exact He]. }
+  unfold should_trigger. destruct (t_conds t) as [|c0 rest] eqn:Ec; [destruct Hc|].
+  destruct (t_logic t) eqn:El.
+  - destruct Hk as [Hk|Hk]; [discriminate|].
+    unfold single_cond in Hk. rewrite Ec in Hk. destruct rest; [|discriminate].
+    destruct Hc as [<-|[]]. cbn [forallb]. rewrite Hhas. reflexivity.
+  - apply existsb_exists. exists c. split; [exact Hc|exact Hhas].
+Qed.
+
+Definition occ_launch (t : tdef) (ctx : list vc) (v : vc) : launch :=
+  {| l_t := t_id t; l_run := [v]; l_args := get_args t (if f_per_occurrence F then [v] else ctx) |}.
+
+(* the launches of one per-occurrence trigger in one iteration: exactly one per pending occurrence *)
+Lemma run_trigger_per_occurrence : forall t snap s,
+  per_occurrence_trigger t -> NoDup snap ->
+  (forall w, In w (ctx_of t snap) -> live (claims s) (t_id t, [w]) (now s) = false) ->
+  launched (run_trigger F snap s t) = launched s ++ map (occ_launch t (ctx_of t snap)) (ctx_of t snap).
+Proof.
+  intros t snap s Hk Hnd Hfresh. unfold run_trigger.
+  destruct (ctx_of t snap) as [|v0 rest] eqn:Ectx.
+  - assert (Hs : should_trigger t [] = false).
+    { unfold should_trigger. destruct (t_conds t) as [|c r]; [reflexivity|].
+      destruct (t_logic t); cbn [forallb existsb has_cond]; [reflexivity|].
+      induction r as [|c' r' IH]; cbn [existsb orb]; [reflexivity|exact IH]. }
+    rewrite Hs. cbn [map]. rewrite app_nil_r. reflexivity.
+  - rewrite <- Ectx in *.
+    assert (Hst : should_trigger t (ctx_of t snap) = true).
+    { apply per_occurrence_should_trigger with (v := v0).
+      - destruct Hk as [Hk|[_ [Hk _]]]; [left; exact Hk|right; exact Hk].
+      - rewrite Ectx. left. reflexivity. }
+    rewrite Hst.
+    assert (Hplans : plans F t (ctx_of t snap)
+                     = map (fun v => ([v], if f_per_occurrence F then [v] else ctx_of t snap)) (ctx_of t snap)).
+    { unfold plans. destruct Hk as [Hk|[Hk [Hs Hp]]]; rewrite Hk; [reflexivity|].
+      rewrite Hp, Hs. cbn [andb]. reflexivity. }
+    rewrite Hplans.
+    destruct (fold_plans_fresh t (map (fun v => ([v], if f_per_occurrence F then [v] else ctx_of t snap)) (ctx_of t snap)) s)
+      as [Hl _].
+    + intros p Hp. apply in_map_iff in Hp. destruct Hp as [w [<- Hw]]. cbn [fst]. apply Hfresh. exact Hw.
+    + apply distinct_runs_singletons. apply ctx_of_nodup. exact Hnd.
+    + rewrite Hl. rewrite map_map. reflexivity.
+Qed.
+
+(* an AND trigger over several conditions: nothing happens unless every condition is pending;
+   when they are and the run id is unclaimed it launches exactly once *)
+Lemma run_trigger_and_needs_all : forall t snap s,
+  t_logic t = LAnd -> launched (run_trigger F snap s t) <> launched s ->
+  forall c, In c (t_conds t) -> exists v, In v snap /\ fst v = c.
+Proof.
+  intros t snap s Hl Hne c Hc. unfold run_trigger in Hne.
+  destruct (should_trigger t (ctx_of t snap)) eqn:Hs; [|exfalso; apply Hne; reflexivity].
+  unfold should_trigger in Hs. destruct (t_conds t) as [|c0 r] eqn:Ec; [discriminate|].
+  rewrite Hl in Hs. rewrite forallb_forall in Hs. specialize (Hs c Hc).
+  apply has_cond_in in Hs. destruct Hs as [v [Hv He]].
+  exists v. split; [|exact He]. apply ctx_of_in in Hv. apply Hv.
+Qed.
+
+Lemma run_trigger_and_once : forall t snap s,
+  t_logic t = LAnd -> f_per_occurrence F && single_cond t = false ->
+  should_trigger t (ctx_of t snap) = true ->
+  live (claims s) (t_id t, ctx_of t snap) (now s) = false ->
+  launched (run_trigger F snap s t)
+  = launched s ++ [{| l_t := t_id t; l_run := ctx_of t snap; l_args := get_args t (ctx_of t snap) |}].
+Proof.
+  intros t snap s Hl Hp Hs Hlive. unfold run_trigger. rewrite Hs. unfold plans. rewrite Hl, Hp.
+  cbn [fold_left]. unfold do_plan. cbn [fst snd]. rewrite Hlive, andb_false_r. reflexivity.
+Qed.
+
+(* ---- frame: other triggers do not touch this trigger's launches and claims ---- *)
+Definition tl_of (i : nat) (l : list launch) : list launch := filter (fun x => Nat.eqb (l_t x) i) l.
+
+Lemma do_plan_frame : forall t' i s p, t_id t' <> i ->
+  tl_of i (launched (do_plan F t' s p)) = tl_of i (launched s)
+  /\ (forall x, live (claims (do_plan F t' s p)) (i, x) (now (do_plan F t' s p)) = live (claims s) (i, x) (now s))
+  /\ now (do_plan F t' s p) = now s /\ pending (do_plan F t' s p) = pending s.
+Proof.
+  intros t' i s p Hn. unfold do_plan.
+  destruct (f_claim_guards_launch F && live (claims s) (t_id t', fst p) (now s)); [auto|].
+  cbn [launched claims now pending]. split; [|split; [|split]]; try reflexivity.
+  - unfold tl_of. rewrite filter_app. cbn [filter mk_launch l_t].
+    apply Nat.eqb_neq in Hn. rewrite Hn. rewrite app_nil_r. reflexivity.
+  - intro x. unfold live at 1. cbn [existsb fst snd]. rewrite runid_tid_neq by exact Hn. reflexivity.
+Qed.
+
+Lemma fold_plan_frame : forall t' i ps s, t_id t' <> i ->
+  let s' := fold_left (do_plan F t') ps s in
+  tl_of i (launched s') = tl_of i (launched s)
+  /\ (forall x, live (claims s') (i, x) (now s') = live (claims s) (i, x) (now s))
+  /\ now s' = now s /\ pending s' = pending s.
+Proof.
+  intros t' i ps. induction ps as [|p r IH]; intros s Hn; cbn [fold_left]; [auto|].
+  destruct (do_plan_frame t' i s p Hn) as [H1 [H2 [H3 H4]]].
+  destruct (IH (do_plan F t' s p) Hn) as [I1 [I2 [I3 I4]]].
+  split; [|split; [|split]].
+  - rewrite I1. exact H1.
+  - intro x. rewrite I2. apply H2.
+  - rewrite I3. exact H3.
+  - rewrite I4. exact H4.
+Qed.
+
+Lemma run_trigger_frame : forall t' i snap s, t_id t' <> i ->
+  let s' := run_trigger F snap s t' in
+  tl_of i (launched s') = tl_of i (launched s)
+  /\ (forall x, live (claims s') (i, x) (now s') = live (claims s) (i, x) (now s))
+  /\ now s' = now s /\ pending s' = pending s.
+Proof.
+  intros t' i snap s Hn. unfold run_trigger.
+  destruct (should_trigger t' (ctx_of t' snap)); [apply fold_plan_frame; exact Hn|auto].
+Qed.
+
+Lemma fold_trigger_frame : forall i snap l s, (forall t', In t' l -> t_id t' <> i) ->
+  let s' := fold_left (run_trigger F snap) l s in
+  tl_of i (launched s') = tl_of i (launched s)
+  /\ (forall x, live (claims s') (i, x) (now s') = live (claims s) (i, x) (now s))
+  /\ now s' = now s /\ pending s' = pending s.
+Proof.
+  intros i snap l. induction l as [|t' r IH]; intros s Hn; cbn [fold_left]; [auto|].
+  assert (Hn' : t_id t' <> i) by (apply Hn; left; reflexivity).
+  destruct (run_trigger_frame t' i snap s Hn') as [H1 [H2 [H3 H4]]].
+  destruct (IH (run_trigger F snap s t')) as [I1 [I2 [I3 I4]]]; [intros; apply Hn; right; assumption|].
+  split; [|split; [|split]].
+  - rewrite I1. exact H1.
+  - intro x. rewrite I2. apply H2.
+  - rewrite I3. exact H3.
+  - rewrite I4. exact H4.
+Qed.
+
+Lemma run_trigger_pending : forall snap s t, pending (run_trigger F snap s t) = pending s.
+Proof.
+  intros snap s t. unfold run_trigger. destruct (should_trigger t (ctx_of t snap)); [|reflexivity].
+  generalize (plans F t (ctx_of t snap)) s. intros ps. induction ps as [|p r IH]; intros s0; cbn [fold_left]; [reflexivity|].
+  rewrite IH. unfold do_plan. destruct (f_claim_guards_launch F && _); reflexivity.
+Qed.
+
+Lemma fold_trigger_pending : forall snap l s, pending (fold_left (run_trigger F snap) l s) = pending s.
+Proof.
+  intros snap l. induction l as [|t r IH]; intros s; cbn [fold_left]; [reflexivity|].
+  rewrite IH. apply run_trigger_pending.
+Qed.
+
+Lemma tl_of_app : forall i a b, tl_of i (a ++ b) = tl_of i a ++ tl_of i b.
+Proof. intros. unfold tl_of. apply filter_app. Qed.
+
+Lemma tl_of_all : forall i (l : list launch), (forall x, In x l -> l_t x = i) -> tl_of i l = l.
+Proof.
+  intros i l. induction l as [|a r IH]; intros H; cbn [tl_of filter]; [reflexivity|].
+  rewrite (H a (or_introl eq_refl)), Nat.eqb_refl. f_equal. apply IH. intros; apply H; right; assumption.
+Qed.
+
+Lemma split_by_id : forall (trigs : list tdef) t, NoDup (map t_id trigs) -> In t trigs ->
+  exists l1 l2, trigs = l1 ++ t :: l2
+    /\ (forall t', In t' l1 -> t_id t' <> t_id t) /\ (forall t', In t' l2 -> t_id t' <> t_id t).
+Proof.
+  intros trigs t Hnd Hin. apply in_split in Hin. destruct Hin as [l1 [l2 ->]].
+  exists l1, l2. split; [reflexivity|].
+  rewrite map_app in Hnd. cbn [map] in Hnd.
+  split; intros t' Ht' He.
+  - apply NoDup_remove_2 in Hnd. apply Hnd. apply in_or_app. left. rewrite <- He. apply in_map. exact Ht'.
+  - apply NoDup_remove_2 in Hnd. apply Hnd. apply in_or_app. right. rewrite <- He. apply in_map. exact Ht'.
+Qed.
+
+(* ---- the whole iteration ---- *)
+Theorem iteration_per_occurrence : forall trigs s t,
+  NoDup (map t_id trigs) -> In t trigs -> NoDup (pending s) ->
+  per_occurrence_trigger t ->
+  (forall w, In w (ctx_of t (pending s)) -> live (claims s) (t_id t, [w]) (now s) = false) ->
+  tl_of (t_id t) (launched (iteration F trigs s))
+  = tl_of (t_id t) (launched s) ++ map (occ_launch t (ctx_of t (pending s))) (ctx_of t (pending s)).
+Proof.
+  intros trigs s t Hids Hin Hnd Hk Hfresh.
+  destruct (split_by_id trigs t Hids Hin) as [l1 [l2 [-> [H1 H2]]]].
+  unfold iteration; cbn [launched]. rewrite fold_left_app. cbn [fold_left].
+  set (snap := pending s) in *.
+  set (sa := fold_left (run_trigger F snap) l1 s).
+  destruct (fold_trigger_frame (t_id t) snap l1 s H1) as [A1 [A2 [A3 _]]]. fold sa in A1, A2, A3.
+  destruct (fold_trigger_frame (t_id t) snap l2 (run_trigger F snap sa t) H2) as [B1 _].
+  rewrite B1.
+  rewrite (run_trigger_per_occurrence t snap sa Hk Hnd).
+  - rewrite tl_of_app, A1. f_equal. apply tl_of_all.
+    intros x Hx. apply in_map_iff in Hx. destruct Hx as [w [<- _]]. reflexivity.
+  - intros w Hw. rewrite A2. apply Hfresh. exact Hw.
+Qed.
+
+Theorem iteration_and_needs_all : forall trigs s t,
+  NoDup (map t_id trigs) -> In t trigs -> t_logic t = LAnd ->
+  tl_of (t_id t) (launched (iteration F trigs s)) <> tl_of (t_id t) (launched s) ->
+  forall c, In c (t_conds t) -> exists v, In v (pending s) /\ fst v = c.
+Proof.
+  intros trigs s t Hids Hin Hl Hne.
+  destruct (split_by_id trigs t Hids Hin) as [l1 [l2 [-> [H1 H2]]]].
+  unfold iteration in Hne; cbn [launched] in Hne. rewrite fold_left_app in Hne. cbn [fold_left] in Hne.
+  set (snap := pending s) in *.
+  set (sa := fold_left (run_trigger F snap) l1 s) in *.
+  destruct (fold_trigger_frame (t_id t) snap l1 s H1) as [A1 _]. fold sa in A1.
+  destruct (fold_trigger_frame (t_id t) snap l2 (run_trigger F snap sa t) H2) as [B1 _].
+  rewrite B1, <- A1 in Hne.
+  apply (run_trigger_and_needs_all t snap sa Hl).
+  intro He. apply Hne. rewrite He. reflexivity.
+Qed.
+
+Theorem iteration_and_once : forall trigs s t,
+  NoDup (map t_id trigs) -> In t trigs -> t_logic t = LAnd -> f_per_occurrence F && single_cond t = false ->
+  should_trigger t (ctx_of t (pending s)) = true ->
+  live (claims s) (t_id t, ctx_of t (pending s)) (now s) = false ->
+  tl_of (t_id t) (launched (iteration F trigs s))
+  = tl_of (t_id t) (launched s)
+    ++ [{| l_t := t_id t; l_run := ctx_of t (pending s); l_args := get_args t (ctx_of t (pending s)) |}].
+Proof.
+  intros trigs s t Hids Hin Hl Hp Hs Hlive.
+  destruct (split_by_id trigs t Hids Hin) as [l1 [l2 [-> [H1 H2]]]].
+  unfold iteration; cbn [launched]. rewrite fold_left_app. cbn [fold_left].
+  set (snap := pending s) in *.
+  set (sa := fold_left (run_trigger F snap) l1 s).
+  destruct (fold_trigger_frame (t_id t) snap l1 s H1) as [A1 [A2 [A3 _]]]. fold sa in A1, A2, A3.
+  destruct (fold_trigger_frame (t_id t) snap l2 (run_trigger F snap sa t) H2) as [B1 _].
+  rewrite B1. rewrite (run_trigger_and_once t snap sa Hl Hp Hs).
+  - rewrite tl_of_app, A1. f_equal. cbn [tl_of filter l_t]. rewrite Nat.eqb_refl. reflexivity.
+  - rewrite A2. exact Hlive.
+Qed.
+
+(* exactly one pending occurrence for the trigger: launched once, with that occurrence's own arguments,
+   whatever the per-occurrence fact says *)
+Theorem iteration_single_occurrence : forall trigs s t v,
+  NoDup (map t_id trigs) -> In t trigs -> NoDup (pending s) ->
+  t_logic t = LOr \/ single_cond t = true ->
+  ctx_of t (pending s) = [v] ->
+  live (claims s) (t_id t, [v]) (now s) = false ->
+  tl_of (t_id t) (launched (iteration F trigs s))
+  = tl_of (t_id t) (launched s) ++ [{| l_t := t_id t; l_run := [v]; l_args := get_args t [v] |}].
+Proof.
+  intros trigs s t v Hids Hin Hnd Hk Hctx Hlive.
+  assert (Hper : per_occurrence_trigger t \/ (t_logic t = LAnd /\ f_per_occurrence F && single_cond t = false)).
+  { destruct (t_logic t) eqn:El; [|left; left; first [exact El|reflexivity]].
+    destruct Hk as [Hk|Hk]; [discriminate|].
+    destruct (f_per_occurrence F) eqn:Ep.
+    - left. right. repeat split; first [assumption|reflexivity].
+    - right. split; first [exact El|reflexivity]. }
+  destruct Hper as [Hper|[Hl Hp]].
+  - rewrite (iteration_per_occurrence trigs s t Hids Hin Hnd Hper).
+    + rewrite Hctx. cbn [map]. unfold occ_launch. destruct (f_per_occurrence F); reflexivity.
+    + rewrite Hctx. intros w [<-|[]]. exact Hlive.
+  - rewrite (iteration_and_once trigs s t Hids Hin Hl Hp).
+    + rewrite Hctx. reflexivity.
+    + apply per_occurrence_should_trigger with (v := v); [exact Hk|rewrite Hctx; left; reflexivity].
+    + rewrite Hctx. exact Hlive.
+Qed.
+
+(* the full statement, available once the source launches per occurrence *)
+Theorem iteration_per_occurrence_own_args : forall trigs s t,
+  f_per_occurrence F = true ->
+  NoDup (map t_id trigs) -> In t trigs -> NoDup (pending s) ->
+  t_logic t = LOr \/ single_cond t = true ->
+  (forall w, In w (ctx_of t (pending s)) -> live (claims s) (t_id t, [w]) (now s) = false) ->
+  tl_of (t_id t) (launched (iteration F trigs s))
+  = tl_of (t_id t) (launched s)
+    ++ map (fun v => {| l_t := t_id t; l_run := [v]; l_args := get_args t [v] |}) (ctx_of t (pending s)).
+Proof.
+  intros trigs s t Hp Hids Hin Hnd Hk Hfresh.
+  assert (Hper : per_occurrence_trigger t).
+  { destruct (t_logic t) eqn:El; [|left; first [exact El|reflexivity]].
+    destruct Hk as [Hk|Hk]; [discriminate|]. right. repeat split; first [assumption|reflexivity]. }
+  rewrite (iteration_per_occurrence trigs s t Hids Hin Hnd Hper Hfresh).
+  f_equal. apply map_ext. intro v. unfold occ_launch. rewrite Hp. reflexivity.
+Qed.
+
+(* OR triggers: one launch per pending occurrence (never two, never none), whatever the argument fact *)
+Theorem iteration_or_one_launch_each : forall trigs s t,
+  NoDup (map t_id trigs) -> In t trigs -> NoDup (pending s) -> t_logic t = LOr ->
+  (forall w, In w (ctx_of t (pending s)) -> live (claims s) (t_id t, [w]) (now s) = false) ->
+  map l_run (tl_of (t_id t) (launched (iteration F trigs s)))
+  = map l_run (tl_of (t_id t) (launched s)) ++ map (fun v => [v]) (ctx_of t (pending s)).
+Proof.
+  intros trigs s t Hids Hin Hnd Hl Hfresh.
+  rewrite (iteration_per_occurrence trigs s t Hids Hin Hnd (or_introl Hl) Hfresh).
+  rewrite map_app, map_map. reflexivity.
+Qed.
+
+Lemma forallb_false_exists : forall {A} (f : A -> bool) l, forallb f l = false -> exists x, In x l /\ f x = false.
+Proof.
+  intros A f l. induction l as [|a r IH]; cbn [forallb]; [discriminate|].
+  destruct (f a) eqn:E; cbn [andb]; intro H.
+  - destruct (IH H) as [x [Hx Hf]]. exists x. split; [right; exact Hx|exact Hf].
+  - exists a. split; [left; reflexivity|exact E].
+Qed.
+
+(* an occurrence stays pending only if no trigger depends on it or some dependent trigger is unsatisfied;
+   it is consumed as soon as every dependent trigger (at least one) was satisfied *)
+Theorem iteration_pending_characterised : forall trigs s v,
+  In v (pending (iteration F trigs s)) <->
+  In v (pending s) /\
+  ((forall t, In t trigs -> depends t v = false)
+   \/ exists t, In t trigs /\ depends t v = true /\ should_trigger t (ctx_of t (pending s)) = false).
+Proof.
+  intros trigs s v. unfold iteration; cbn [pending]. rewrite fold_trigger_pending, filter_In.
+  unfold cleared.
+  destruct (filter (fun t => depends t v) trigs) as [|d ds] eqn:Ef.
+  - cbn [negb]. split.
+    + intros [Hin _]. split; [exact Hin|]. left. intros t Ht.
+      destruct (depends t v) eqn:Ed; [|reflexivity].
+      assert (Hx : In t (filter (fun t => depends t v) trigs)) by (apply filter_In; split; assumption).
+      rewrite Ef in Hx. destruct Hx.
+    + intros [Hin _]. split; [exact Hin|reflexivity].
+  - rewrite <- Ef. split.
+    + intros [Hin Hc]. split; [exact Hin|]. right.
+      apply negb_true_iff in Hc. apply forallb_false_exists in Hc. destruct Hc as [t [Ht Hs]].
+      apply filter_In in Ht. exists t. tauto.
+    + intros [Hin [Hnone|[t [Ht [Hd Hs]]]]].
+      * exfalso. assert (Hx : In d (filter (fun t => depends t v) trigs)) by (rewrite Ef; left; reflexivity).
+        apply filter_In in Hx. destruct Hx as [Hx Hdx]. rewrite (Hnone d Hx) in Hdx. discriminate.
+      * split; [exact Hin|]. apply negb_true_iff.
+        destruct (forallb (fun t0 => should_trigger t0 (ctx_of t0 (pending s))) (filter (fun t0 => depends t0 v) trigs)) eqn:Ea; [|reflexivity].
+        rewrite forallb_forall in Ea. rewrite (Ea t) in Hs; [discriminate|]. apply filter_In. split; assumption.
+Qed.
+
+(* within the expiry of a claim the same run id is not launched again *)
+Lemma do_plan_blocked : forall t s p,
+  f_claim_guards_launch F = true -> live (claims s) (t_id t, fst p) (now s) = true -> do_plan F t s p = s.
+Proof. intros t s p Hg Hl. unfold do_plan. rewrite Hg, Hl. reflexivity. Qed.
+End Loop.
+
+(* ------------------------------------------------------------------ witnesses of the known defects *)
+Definition ev (n : nat) : occ := {| o_kind := 0; o_src := n; o_aux := 0; o_n := n |}.
+Definition t_or_event : tdef := {| t_id := 0; t_conds := [0]; t_logic := LOr; t_static := false; t_prov := [0] |}.
+Definition t_single_event : tdef := {| t_id := 0; t_conds := [0]; t_logic := LAnd; t_static := false; t_prov := [0] |}.
+Definition t_and_two : tdef := {| t_id := 1; t_conds := [0; 5]; t_logic := LAnd; t_static := false; t_prov := [0] |}.
+
+Definition with_per_occurrence (b : bool) (F : facts) : facts :=
+  {| f_claim_guards_launch := f_claim_guards_launch F; f_clear_after_launch := f_clear_after_launch F;
+     f_per_occurrence := b; f_or_runid_per_occurrence := f_or_runid_per_occurrence F;
+     f_and_runid_joins_all := f_and_runid_joins_all F; f_args_first_match := f_args_first_match F;
+     f_mem_claim_locked := f_mem_claim_locked F; f_sqlite_claim_immediate := f_sqlite_claim_immediate F;
+     f_claim_expiry_s := f_claim_expiry_s F; f_mem_cas_locked := f_mem_cas_locked F;
+     f_sqlite_cas_immediate := f_sqlite_cas_immediate F; f_mem_cas_rejects_none := f_mem_cas_rejects_none F;
+     f_sqlite_cas_rejects_none := f_sqlite_cas_rejects_none F;
+     f_exc_ctx_has_invocation := f_exc_ctx_has_invocation F;
+     f_status_ctx_inv_and_status := f_status_ctx_inv_and_status F;
+     f_cron_window_s := f_cron_window_s F; f_cron_min_interval_s := f_cron_min_interval_s F;
+     f_cron_tolerance_s := f_cron_tolerance_s F; f_cron_window_inclusive := f_cron_window_inclusive F;
+     f_cron_min_interval_strict := f_cron_min_interval_strict F;
+     f_cron_first_poll_checked := f_cron_first_poll_checked F |}.
+
+(* two events pending, OR trigger: the second launch does not carry the second event's arguments *)
+Lemma or_args_refuted : forall F, f_per_occurrence F = false ->
+  let s := run F false [t_or_event] [ORecord 0 (ev 1); ORecord 0 (ev 2); OIter] in
+  map l_args (launched s) = [ACtx (0, [0; 1]); ACtx (0, [0; 1])].
+Proof.
+  intros F H. unfold run; cbn [fold_left step]. unfold iteration, record_vc, state0; cbn.
+  unfold do_plan; cbn. rewrite H. destruct (f_claim_guards_launch F); cbn; rewrite ?H; reflexivity.
+Qed.
+
+(* two events pending, trigger on a single condition with the default AND logic: one launch *)
+Lemma single_collapses_refuted : forall F, f_per_occurrence F = false ->
+  let s := run F false [t_single_event] [ORecord 0 (ev 1); ORecord 0 (ev 2); OIter] in
+  length (launched s) = 1 /\ pending s = [].
+Proof.
+  intros F H. unfold run; cbn [fold_left step]. unfold iteration, record_vc, state0; cbn.
+  unfold do_plan; cbn. rewrite H. destruct (f_claim_guards_launch F); cbn; split; reflexivity.
+Qed.
+
+(* an unsatisfied AND trigger keeps the event pending; after the claim expiry the OR trigger fires again *)
+Lemma refire_after_expiry_refuted : forall F, f_claim_guards_launch F = true -> (0 < f_claim_expiry_s F)%Z ->
+  let ops := [ORecord 0 (ev 1); OIter; OAdvance (f_claim_expiry_s F); OIter] in
+  length (tl_of 0 (launched (run F false [t_or_event; t_and_two] ops))) = 2.
+Proof.
+  intros F Hg Hpos. unfold run; cbn [fold_left step]. unfold iteration, record_vc, state0; cbn.
+  assert (E1 : (0 <? f_claim_expiry_s F)%Z = true) by (apply Z.ltb_lt; lia).
+  destruct (f_per_occurrence F);
+    repeat (unfold do_plan; cbn; rewrite ?Hg, ?Z.ltb_irrefl, ?E1; cbn); reflexivity.
+Qed.
+
+(* ...but not before the claim expires *)
+Lemma no_refire_within_expiry : forall F dt, f_claim_guards_launch F = true -> (0 <= dt < f_claim_expiry_s F)%Z ->
+  let ops := [ORecord 0 (ev 1); OIter; OAdvance dt; OIter] in
+  length (tl_of 0 (launched (run F false [t_or_event; t_and_two] ops))) = 1.
+Proof.
+  intros F dt Hg Hdt. unfold run; cbn [fold_left step]. unfold iteration, record_vc, state0; cbn.
+  assert (E1 : (0 <? f_claim_expiry_s F)%Z = true) by (apply Z.ltb_lt; lia).
+  assert (E2 : (dt <? f_claim_expiry_s F)%Z = true) by (apply Z.ltb_lt; lia).
+  destruct (f_per_occurrence F);
+    repeat (unfold do_plan; cbn; rewrite ?Hg, ?E2, ?E1; cbn); reflexivity.
+Qed.
+
+(* context ids: with the invocation id in the exception context two failing invocations are two occurrences *)
+Lemma exception_ctx_distinct : forall F a b, f_exc_ctx_has_invocation F = true ->
+  o_kind a = 3 -> o_kind b = 3 -> ctx_id F a = ctx_id F b -> o_src a = o_src b /\ o_aux a = o_aux b.
+Proof.
+  intros F a b H Ha Hb. unfold ctx_id. rewrite Ha, Hb, H. intro E. inversion E. split; reflexivity.
+Qed.
+
+Lemma exception_ctx_collapses_refuted : forall F, f_exc_ctx_has_invocation F = false ->
+  ctx_id F {| o_kind := 3; o_src := 1; o_aux := 0; o_n := 1 |} = ctx_id F {| o_kind := 3; o_src := 2; o_aux := 0; o_n := 2 |}.
+Proof. intros F H. unfold ctx_id; cbn. rewrite H. reflexivity. Qed.
+
+Lemma status_reentry_same_key : forall F a b, o_kind a = 1 -> o_kind b = 1 -> o_src a = o_src b -> o_aux a = o_aux b ->
+  ctx_id F a = ctx_id F b.
+Proof. intros F a b Ha Hb Hs Hx. unfold ctx_id. rewrite Ha, Hb, Hs, Hx. reflexivity. Qed.
+
+(* ------------------------------------------------------------------ concurrent claims *)
+Definition cinv (w : cworld) : Prop :=
+  NoDup (cw_launches w) /\ incl (cw_launches w) (cw_claims w) /\ (forall a, In a (cw_actors w) -> apc a = Idle).
+
+Lemma set_nth_in : forall {A} i (x : A) l a, In a (set_nth i x l) -> a = x \/ In a l.
+Proof.
+  intros A i x l. revert i. induction l as [|y r IH]; intros i a H; cbn [set_nth] in H.
+  - destruct i; destruct H.
+  - destruct i; cbn [In] in H.
+    + destruct H as [H|H]; [left; symmetry; exact H|right; right; exact H].
+    + destruct H as [H|H]; [right; left; exact H|]. destruct (IH i a H); [left|right; right]; assumption.
+Qed.
+
+Lemma nat_inb_false : forall r l, nat_inb r l = false -> ~ In r l.
+Proof.
+  intros r l H Hin. unfold nat_inb in H.
+  assert (existsb (Nat.eqb r) l = true) by (apply existsb_exists; exists r; split; [exact Hin|apply Nat.eqb_refl]).
+  congruence.
+Qed.
+
+Lemma cstep_atomic_inv : forall w i, cinv w -> cinv (cstep true w i).
+Proof.
+  intros w i [Hnd [Hincl Hidle]]. unfold cstep.
+  destruct (nth_error (cw_actors w) i) as [a|] eqn:En; [|repeat split; assumption].
+  assert (Ha : apc a = Idle) by (apply Hidle; eapply nth_error_In; exact En).
+  rewrite Ha. destruct (todo a) as [|r rest]; [repeat split; assumption|].
+  destruct (nat_inb r (cw_claims w)) eqn:Ec; unfold cinv; cbn [cw_launches cw_claims cw_actors].
+  - split; [exact Hnd|]. split; [exact Hincl|].
+    intros b Hb. apply set_nth_in in Hb. destruct Hb as [->|Hb]; [reflexivity|apply Hidle; exact Hb].
+  - apply nat_inb_false in Ec. split; [|split].
+    + constructor; [|exact Hnd]. intro Hin. apply Ec. apply Hincl. exact Hin.
+    + intros x [<-|Hx]; [left; reflexivity|right; apply Hincl; exact Hx].
+    + intros b Hb. apply set_nth_in in Hb. destruct Hb as [->|Hb]; [reflexivity|apply Hidle; exact Hb].
+Qed.
+
+Lemma crun_atomic_inv : forall sched w, cinv w -> cinv (crun true w sched).
+Proof.
+  intros sched. induction sched as [|i r IH]; intros w H; cbn [crun fold_left]; [exact H|].
+  apply IH. apply cstep_atomic_inv. exact H.
+Qed.
+
+Lemma cworld0_inv : forall plans, cinv (cworld0 plans).
+Proof.
+  intros plans. unfold cinv, cworld0; cbn [cw_launches cw_claims cw_actors].
+  split; [constructor|]. split; [intros x []|].
+  intros a Ha. apply in_map_iff in Ha. destruct Ha as [p [<- _]]. reflexivity.
+Qed.
+
+Theorem atomic_claim_at_most_once : forall plans sched, NoDup (cw_launches (crun true (cworld0 plans) sched)).
+Proof. intros. apply (crun_atomic_inv sched (cworld0 plans) (cworld0_inv plans)). Qed.
+
+Lemma split_claim_refuted : exists plans sched, ~ NoDup (cw_launches (crun false (cworld0 plans) sched)).
+Proof.
+  exists [[7]; [7]], [0; 1; 0; 1]. vm_compute. intro H. inversion H as [|x l Hin _]; subst.
+  apply Hin. left. reflexivity.
+Qed.
+
+(* ------------------------------------------------------------------ concurrent compare-and-swap *)
+Definition casinv (w : casworld) : Prop := NoDup (cv_fired w) /\ (forall e, In e (cv_fired w) -> e < cv w).
+
+Lemma cas_ok_strict : forall e cur, cas_ok true e cur = true -> cur = e.
+Proof.
+  intros e cur. unfold cas_ok. destruct e; intro H; apply Nat.eqb_eq in H; exact H.
+Qed.
+
+Lemma casstep_inv : forall w i, casinv w -> casinv (casstep true true w i).
+Proof.
+  intros w i [Hnd Hlt]. unfold casstep.
+  destruct (nth_error (cv_actors w) i) as [a|]; [|split; assumption].
+  destruct (done a); [split; assumption|].
+  destruct (seen a) as [e|]; [|split; assumption].
+  destruct (cas_ok true e (cv w)) eqn:Ec; unfold casinv; cbn [cv cv_fired]; [|split; assumption].
+  apply cas_ok_strict in Ec. split.
+  - constructor; [|exact Hnd]. intro Hin. apply Hlt in Hin. lia.
+  - intros x [<-|Hx]; [lia|]. apply Hlt in Hx. lia.
+Qed.
+
+Theorem cas_fires_once_per_value : forall n v0 sched, NoDup (cv_fired (casrun true true (casworld0 n v0) sched)).
+Proof.
+  intros n v0 sched.
+  assert (H : forall w, casinv w -> casinv (casrun true true w sched)).
+  { induction sched as [|i r IH]; intros w Hw; cbn [casrun fold_left]; [exact Hw|].
+    apply IH. apply casstep_inv. exact Hw. }
+  apply (H (casworld0 n v0)). split; [constructor|intros e []].
+Qed.
+
+Lemma cas_none_refuted : exists sched, ~ NoDup (cv_fired (casrun true false (casworld0 2 0) sched)).
+Proof.
+  exists [0; 1; 0; 1]. vm_compute. intro H. inversion H as [|x l Hin _]; subst. apply Hin. left. reflexivity.
+Qed.
+
+Lemma cas_split_refuted : exists sched, ~ NoDup (cv_fired (casrun false true (casworld0 2 3) sched)).
+Proof.
+  exists [0; 1; 0; 1; 0; 1]. vm_compute. intro H. inversion H as [|x l Hin _]; subst. apply Hin. left. reflexivity.
+Qed.
+
+Theorem claim_flag_at_most_once : forall b, b = true ->
+  forall plans sched, NoDup (cw_launches (crun b (cworld0 plans) sched)).
+Proof. intros b ->. exact atomic_claim_at_most_once. Qed.
+
+Theorem cas_flags_fire_once : forall a r, a = true -> r = true ->
+  forall n v0 sched, NoDup (cv_fired (casrun a r (casworld0 n v0) sched)).
+Proof. intros a r -> ->. exact cas_fires_once_per_value. Qed.
